@@ -6,7 +6,7 @@ CONSTANTS NV = 4
           MaxView = 1
           MaxHeight = 1
           MaxId = 2
-          MaxSigns = 99
+          MaxSigns = 3
           NWho = 1
           Rich = TRUE
           EmitOn = TRUE
